@@ -28,17 +28,34 @@ pub fn bin(b: Build) -> String {
 }
 
 #[derive(Clone, Debug, Default)]
-pub struct Cmd { pub args: Vec<String>, pub env: Vec<(String, String)>, pub stdin: Option<Vec<u8>>, pub timeout_s: u64 }
+pub struct Cmd { pub args: Vec<String>, pub env: Vec<(String, String)>, pub stdin: Option<Vec<u8>>, pub timeout_s: u64,
+    /// standard input redirected from this (regular) file instead of a pipe
+    pub stdin_file: Option<String>,
+    /// a named pipe created at this path before the spawn and fed with these bytes once the child opens it
+    pub fifo: Option<(String, Vec<u8>)> }
 impl Cmd {
-    pub fn new(args: &[&str]) -> Cmd { Cmd { args: args.iter().map(|s| s.to_string()).collect(), env: vec![], stdin: None, timeout_s: 20 } }
+    pub fn new(args: &[&str]) -> Cmd { Cmd { args: args.iter().map(|s| s.to_string()).collect(), env: vec![], stdin: None, timeout_s: 20, stdin_file: None, fifo: None } }
     pub fn arg(mut self, a: &str) -> Cmd { self.args.push(a.into()); self }
     pub fn env(mut self, k: &str, v: &str) -> Cmd { self.env.push((k.into(), v.into())); self }
     pub fn stdin(mut self, b: &[u8]) -> Cmd { self.stdin = Some(b.to_vec()); self }
     pub fn timeout(mut self, s: u64) -> Cmd { self.timeout_s = s; self }
+    pub fn stdin_from_file(mut self, path: &str) -> Cmd { self.stdin_file = Some(path.into()); self }
+    pub fn fifo(mut self, path: &str, data: &[u8]) -> Cmd { self.fifo = Some((path.into(), data.to_vec())); self }
     pub fn run(&self, b: Build) -> Run {
         let t0 = Instant::now();
         let mut c = Command::new(bin(b));
-        c.args(&self.args).env_clear().stdout(Stdio::piped()).stderr(Stdio::piped()).stdin(if self.stdin.is_some() { Stdio::piped() } else { Stdio::null() });
+        c.args(&self.args).env_clear().stdout(Stdio::piped()).stderr(Stdio::piped()).stdin(if let Some(f) = &self.stdin_file { Stdio::from(std::fs::File::open(f).expect("open stdin file")) } else if self.stdin.is_some() { Stdio::piped() } else { Stdio::null() });
+        // named pipe: created before the spawn, fed by a thread that opens it without blocking (the child may never open it)
+        let done = std::sync::Arc::new(std::sync::atomic::AtomicBool::new(false));
+        let feeder = self.fifo.clone().map(|(path, data)| {
+            let _ = std::fs::remove_file(&path);
+            let cp = std::ffi::CString::new(path.clone()).unwrap(); extern "C" { fn mkfifo(path: *const std::os::raw::c_char, mode: u32) -> i32; }
+            assert_eq!(unsafe { mkfifo(cp.as_ptr(), 0o600) }, 0, "mkfifo {path}");
+            let done = done.clone();
+            std::thread::spawn(move || { use std::os::unix::fs::OpenOptionsExt; use std::sync::atomic::Ordering;
+                let mut f = loop { match std::fs::OpenOptions::new().write(true).custom_flags(0o4000 /* O_NONBLOCK */).open(&path) { Ok(f) => break f, Err(_) => { if done.load(Ordering::Relaxed) { return; } std::thread::sleep(Duration::from_millis(1)); } } };
+                let mut off = 0; while off < data.len() { match f.write(&data[off..]) { Ok(n) => off += n, Err(e) if e.kind() == std::io::ErrorKind::WouldBlock => { if done.load(Ordering::Relaxed) { return; } std::thread::sleep(Duration::from_millis(1)); } Err(_) => return } } })
+        });
         for (k, v) in &self.env { c.env(k, v); }
         // the child must never outlive the harness (a watchdog exit or a killed harness would otherwise leave endless
         // vanity searches behind): ask the kernel to SIGKILL it when its parent dies
@@ -54,6 +71,7 @@ impl Cmd {
             None => { let _ = child.kill(); let _ = child.wait(); Status::Timeout }
         };
         let _ = w.join();
+        done.store(true, std::sync::atomic::Ordering::Relaxed); if let Some(h) = feeder { let _ = h.join(); } if let Some((path, _)) = &self.fifo { let _ = std::fs::remove_file(path); }
         Run { status, stdout: ro.join().unwrap_or_default(), stderr: String::from_utf8_lossy(&re.join().unwrap_or_default()).into_owned(), wall_ms: t0.elapsed().as_millis() }
     }
     pub fn shown(&self) -> String { format!("hdwallet {}{}{}", self.args.iter().map(|a| if a.chars().all(|c| c.is_ascii_alphanumeric() || "-_/.'=:".contains(c)) && !a.is_empty() { a.clone() } else { format!("{a:?}") }).collect::<Vec<_>>().join(" "),
